@@ -118,6 +118,35 @@ def facadeLine (m : Machine) (op : String) : Machine × Option String :=
        | _ => .deque st', some s!"{op} -> {fobs ob}")
   | _ => (m, none)
 
+def cacheLine (m : Machine) (op : String) : Machine × Option String :=
+  match m with
+  | .unsync p s =>
+      if op == "policy" then
+        (m, some s!"{op} -> policy cap={optNat p.cap} ttl={optNat p.ttl} tti={optNat p.tti}")
+      else
+      match parseOp op with
+      | none => (m, some s!"{op} -> bad-op")
+      | some o =>
+        let (s', ob) := Unsync.step p s o
+        let m' := match ob with
+          | .panic _ => Machine.dead
+          | _ => Machine.unsync p s'
+        (m', some s!"{op} -> {obs ob}")
+  | .sync p s =>
+      if op == "policy" then
+        (m, some s!"{op} -> policy cap={optNat p.cap} ttl={optNat p.ttl} tti={optNat p.tti}")
+      else
+      match parseOp op with
+      | none => (m, some s!"{op} -> bad-op")
+      | some o =>
+        let (s', ob) := Sync.step p s o
+        let m' := match ob with
+          | .panic _ => Machine.dead
+          | _ => Machine.sync p s'
+        (m', some s!"{op} -> {obs ob}")
+
+  | _ => (m, none)
+
 def stepLine (m : Machine) (line : String) : Machine × Option String :=
   let op := (opPart line).trimAscii.toString
   if op.isEmpty || op.startsWith "#" then (m, none)
@@ -140,32 +169,14 @@ def stepLine (m : Machine) (line : String) : Machine × Option String :=
     match m with
     | .idle => (m, some s!"{op} -> bad-op")
     | .dead => (m, none)
+    | .unsync _ _ | .sync _ _ =>
+      if op == "drop" then
+        -- dropping the last handle releases every key and value (Rust runs the destructors
+        -- when the last `Rc`/`Arc` goes: trusted)
+        (.dead, some "drop -> dropped k=0 v=0")
+      else cacheLine m op
     | .sketch _ => facadeLine m op
     | .deque _ => facadeLine m op
-    | .unsync p s =>
-      if op == "policy" then
-        (m, some s!"{op} -> policy cap={optNat p.cap} ttl={optNat p.ttl} tti={optNat p.tti}")
-      else
-      match parseOp op with
-      | none => (m, some s!"{op} -> bad-op")
-      | some o =>
-        let (s', ob) := Unsync.step p s o
-        let m' := match ob with
-          | .panic _ => Machine.dead
-          | _ => Machine.unsync p s'
-        (m', some s!"{op} -> {obs ob}")
-    | .sync p s =>
-      if op == "policy" then
-        (m, some s!"{op} -> policy cap={optNat p.cap} ttl={optNat p.ttl} tti={optNat p.tti}")
-      else
-      match parseOp op with
-      | none => (m, some s!"{op} -> bad-op")
-      | some o =>
-        let (s', ob) := Sync.step p s o
-        let m' := match ob with
-          | .panic _ => Machine.dead
-          | _ => Machine.sync p s'
-        (m', some s!"{op} -> {obs ob}")
 
 partial def loop (h : IO.FS.Stream) (out : IO.FS.Stream) (m : Machine) : IO Unit := do
   let line ← h.getLine
@@ -175,7 +186,6 @@ partial def loop (h : IO.FS.Stream) (out : IO.FS.Stream) (m : Machine) : IO Unit
   | some s => out.putStrLn s
   | none => pure ()
   loop h out m'
-
 /-! ### oracle mode: judge recorded traces -/
 
 def kindOf (c : Cfg) : Spec.Kind :=
